@@ -22,7 +22,8 @@ EXPLANATION = (
     "formatter function; symmetric formatters must sort their party arguments, fixed-role formatters must receive "
     "the new and the existing declaration in the same roles at every call site. Accept/reject symmetry is C08's guard "
     "pairs and C18's exact prefix idioms; one transaction per request is C15. Does not decide identity of the final "
-    "graph under all interleavings of RPC arrivals."
+    "graph under all interleavings of RPC arrivals. "
+    'Also: every caller of the glob/product check names the step by its node label; the freshness clock is set in the completion transaction (shared with C03); the wake-up of a parked consumer does not depend on whether the producer rewrote its output.'
 )
 ASSUMPTIONS = ["conflict guards exist in both directions (C08)", "prefix selections are exact (C18)"]
 
